@@ -156,6 +156,29 @@ package dynblock
 //@ requires blockS != nil && rawSpec != nil
 //@ ensures foreach: ret0 != nil ==> (exists x hcl.Expression :: { exprVal(x, old(b.forEachCtx)) } ret0.forEachVal == exprVal(x, old(b.forEachCtx)))
 
+// ---- the body of a generated block (unit U13f, C18/C06) ----
+// verif:unit U13f props=C18,C06
+// The body of a block generated for one iteration is a fresh expansion of the template's content body
+// that carries exactly the iteration, the for_each checks and the value marks it was given: the
+// marks of *this* block's for_each (the enclosing block's marks are already on the enclosing
+// expansion's results; replacing one by the other loses marks).
+// (an expansion option only adds for_each checks: assumed at the interface, it is the one
+// implementation in options.go)
+// verif:func (ExpandOption).applyExpandOption
+//@ trusted
+//@ assigns arg1.checkForEach
+// verif:func Expand
+//@ nosafety
+//@ ensures fresh: typeis(ret, ptr(expandBody)) && unbox(ret, ptr(expandBody)) != nil && fresh(unbox(ret, ptr(expandBody))) && unbox(ret, ptr(expandBody)).original == body && unbox(ret, ptr(expandBody)).forEachCtx == ctx
+//@ loop 1 invariant ret != nil && fresh(ret) && ret.original == body && ret.forEachCtx == ctx
+// verif:func (*expandBody).expandChild
+//@ nosafety
+//@ assumepre EvalContext
+//@ ensures kind: typeis(ret, ptr(expandBody)) && unbox(ret, ptr(expandBody)) != nil && fresh(unbox(ret, ptr(expandBody)))
+//@ ensures orig: unbox(ret, ptr(expandBody)).original == child
+//@ ensures iter: unbox(ret, ptr(expandBody)).iteration == i
+//@ ensures marks: unbox(ret, ptr(expandBody)).valueMarks == valueMarks
+
 // ---- the extended schema is built in fresh memory (unit U13d, C17) ----
 // verif:unit U13d props=C17
 // extendSchema must not write the caller's schema (which is shared between concurrent content
